@@ -58,6 +58,11 @@ class Rec(protocol.Protocol):
         if self.lost:
             self.data_after_lost += 1
         self.got += data
+        if self.st.get("armed") and self.name == self.st.get("closer"):
+            # the application closes from inside dataReceived, with output still pending
+            self.st["armed"] = False
+            self.sim.probe("close_from_dataReceived")
+            self.st["close_now"]()
 
     def connectionLost(self, reason):
         self.lost.append(reason)
@@ -98,7 +103,7 @@ def run(sim):
     patt = {"C": random.Random(sim.draw_int(0, 10**6, "pattC")).randbytes(maxtotal + 10),
             "S": random.Random(sim.draw_int(0, 10**6, "pattS")).randbytes(maxtotal + 10)}
     # a half-closeable protocol that sees the peer's FIN after a full close must close itself
-    st = {"oneway": oneway, "bufferSize": bufsz, "close_on_read_lost": closing != "halfclose"}
+    st = {"oneway": oneway, "closer": closer, "armed": False, "bufferSize": bufsz, "close_on_read_lost": closing != "halfclose"}
     protos = {}
     cls = HalfRec if half else Rec
 
@@ -191,6 +196,7 @@ def _drive(sim, kind, kern, r, now, patt, protos, sf, cf, closing, closer, half,
         sim.event(side, "lose-after-halfclose")
         p.transport.loseConnection()
 
+    st["close_now"] = close_now
     sizes = [1, 2, 5, 17, 100, 1000, 5000, 70000, 300000]
     budget = sim.draw_int(5, 60, "app_ops")
     steps = 0
@@ -241,7 +247,13 @@ def _drive(sim, kind, kern, r, now, patt, protos, sf, cf, closing, closer, half,
         elif op == "close":
             budget = 0
             state["phase"] = "closing"
-            close_now()
+            if closing == "lose" and not st["oneway"] and sim.draw_bool(0.4, "close_from_dataReceived"):
+                # arm: the closer will call loseConnection() from its next dataReceived, with a write of its own still unflushed
+                st["armed"] = True
+                do_write(other[closer], sim.draw_choice(sizes[:5], "size"))
+                do_write(closer, sim.draw_choice(sizes[:6], "size"))
+            else:
+                close_now()
         elif op == "peer-write":
             do_write(other[closer], sim.draw_choice(sizes[:6], "size"))
         elif op == "peer-close":
